@@ -138,6 +138,7 @@ func (e *Engine) Render(name string, context map[string]interface{}) (string, er
 		LogError(err, fmt.Sprintf("Failed to load template: %s", name))
 		return "", err
 	}
+	vhook("render")
 
 	// If debug is enabled, use more detailed error reporting
 	if e.environment.debug {
@@ -178,6 +179,7 @@ func (e *Engine) RenderTo(w io.Writer, name string, context map[string]interface
 		LogError(err, fmt.Sprintf("Failed to load template: %s", name))
 		return err
 	}
+	vhook("render")
 
 	// If debug is enabled, use more detailed error reporting
 	if e.environment.debug {
